@@ -334,8 +334,41 @@ def rand_nodes(rng, depth, width, names=DOC_NAMES, text=True):
     return out
 
 
+def rand_case_dropped_state(rng, pos=False):
+    """targeted shape (seeded change C12-1): an earlier *stateful* template (once, or positional when
+    `pos`) whose matches also occur inside an element that a later template drops or replaces by a
+    constant without calling select(), with and without buffering, and again after that element —
+    the dropped content must still have gone through the earlier templates"""
+    x, y = rng.sample(DOC_NAMES, 2)
+    t0 = {'match': x, 'body': rand_body(rng, rng.choice(['wrap', 'const', 'wrapself'])),
+          'buffer': True, 'once': True, 'recursive': True}
+    if pos and rng.random() < 0.5:
+        t0['once'] = False
+        t0['match'] = '%s[%d]' % (x, rng.choice([1, 2]))
+    t1 = {'match': y, 'body': rand_body(rng, rng.choice(['drop', 'const', 'const', 'wrap'])),
+          'buffer': rng.random() < 0.4, 'once': rng.random() < 0.15, 'recursive': rng.random() < 0.85}
+    inner = rand_nodes(rng, 1, 2)
+    inner.insert(rng.randrange(0, len(inner) + 1), [x, rand_nodes(rng, 0, 1)])
+    if rng.random() < 0.4:
+        inner = [[rng.choice(DOC_NAMES), inner]]
+    kids = rand_nodes(rng, 1, 2) + [[y, inner]] + rand_nodes(rng, 1, 1) + [[x, rand_nodes(rng, 0, 1)]] + rand_nodes(rng, 1, 2)
+    # adjacent text nodes would be one TEXT event after parsing
+    merged = []
+    for k in kids:
+        if isinstance(k, str) and merged and isinstance(merged[-1], str):
+            continue
+        merged.append(k)
+    tmpls = [t0, t1]
+    if rng.random() < 0.3:
+        tmpls.append({'match': rand_path(rng, DOC_NAMES + ['w', 'x']), 'body': rand_body(rng, maxsel=1),
+                      'buffer': True, 'once': False, 'recursive': True})
+    return {'kids': tmpls + merged}
+
+
 def rand_case(rng, ntmpl=None, hints=True, pos=False, late=0.15, kinds=('single', 'simple', 'generic'),
-              gen_markup=0.2, maxsel=2, depth=3, width=3, inc=0.0):
+              gen_markup=0.2, maxsel=2, depth=3, width=3, inc=0.0, targeted=0.1):
+    if hints and ntmpl is None and set(kinds) == {'single', 'simple', 'generic'} and rng.random() < targeted:
+        return rand_case_dropped_state(rng, pos=pos)
     ntmpl = ntmpl or rng.choice([1, 2, 2, 3, 3, 4])
     names = DOC_NAMES + ['w', 'x']
     tmpls = []
